@@ -48,7 +48,7 @@ func c16Initial(origins []string) *config.PikeConfig {
 		Compresses: []config.CompressConfig{{Name: "cmpA", Levels: map[string]uint{"gzip": 1, "br": 1}}},
 		Caches:     []config.CacheConfig{{Name: "c0", Size: 5000, HitForPass: "5m"}, {Name: "c1", Size: 5000, HitForPass: "5m"}},
 		Upstreams: []config.UpstreamConfig{
-			{Name: "u0", Servers: []config.UpstreamServerConfig{{Addr: origins[0]}}},
+			{Name: "u0", HealthCheck: "/ping", Servers: []config.UpstreamServerConfig{{Addr: origins[0]}}},
 			{Name: "u1", Servers: []config.UpstreamServerConfig{{Addr: origins[1]}}},
 		},
 		Locations: []config.LocationConfig{
@@ -84,7 +84,7 @@ func hasName(list []string, n string) bool {
 func c16Mutate(rnd *rand.Rand, c *config.PikeConfig, origins []string, seq *c16Seq, removedSlots map[string]bool) string {
 	ops := []string{"srv_minlen_set", "srv_minlen_unset", "srv_filter_set", "srv_filter_unset", "srv_compress_set", "srv_compress_unset", "srv_cache_switch", "srv_locations_change",
 		"srv_add", "srv_remove", "loc_add", "loc_remove", "loc_rewrite_set", "loc_rewrite_unset", "loc_headers_set", "loc_headers_unset", "loc_query_set", "loc_query_unset", "loc_upstream_switch",
-		"up_add", "up_servers_change", "up_ae_set", "up_ae_unset", "cmp_add", "cmp_modify", "cmp_remove", "best_override", "best_remove", "srv_readd"}
+		"up_add", "up_servers_change", "up_ae_set", "up_ae_unset", "cmp_add", "cmp_modify", "cmp_drop_level", "cmp_remove", "best_override", "best_remove", "srv_readd"}
 	for try := 0; try < 40; try++ {
 		op := ops[rnd.Intn(len(ops))]
 		slot := []string{"S1", "S2"}[rnd.Intn(2)]
@@ -266,6 +266,20 @@ func c16Mutate(rnd *rand.Rand, c *config.PikeConfig, origins []string, seq *c16S
 				if c.Compresses[i].Name != "bestCompression" && rnd.Intn(2) == 0 {
 					c.Compresses[i].Levels = map[string]uint{"gzip": uint(1 + rnd.Intn(9)), "br": uint(1 + rnd.Intn(11))}
 					return op + " " + c.Compresses[i].Name + fmt.Sprint(c.Compresses[i].Levels)
+				}
+			}
+		case "cmp_drop_level":
+			for i := range c.Compresses {
+				if c.Compresses[i].Name != "bestCompression" && len(c.Compresses[i].Levels) == 2 {
+					k := []string{"gzip", "br"}[rnd.Intn(2)]
+					lv := map[string]uint{}
+					for kk, v := range c.Compresses[i].Levels {
+						if kk != k {
+							lv[kk] = v
+						}
+					}
+					c.Compresses[i].Levels = lv
+					return op + " " + c.Compresses[i].Name + " drops " + k
 				}
 			}
 		case "cmp_remove":
@@ -459,6 +473,7 @@ func c16Run(r *hx.Run, bin string, seq *c16Seq, rnd *rand.Rand) {
 	farm := hx.NewFarm(3, nil)
 	defer farm.Close()
 	farm.SetScript(c16OriginScript)
+	farm.PingDelay.Store(int64(40 * time.Millisecond)) // a slow health endpoint widens every reload's windows
 	var origins []string
 	for _, o := range farm.Origins {
 		origins = append(origins, o.URL())
@@ -507,14 +522,15 @@ func c16Run(r *hx.Run, bin string, seq *c16Seq, rnd *rand.Rand) {
 		defer twg.Done()
 		cl := hx.NewClient(nil)
 		for i := 0; !stop.Load(); i++ {
-			res := cl.Do(hx.Req{Addr: srvAddr(L.ports["S0"]), Host: "hh.example", URI: fmt.Sprintf("/p0/traffic?size=300&n=%d", i%7), Timeout: 5 * time.Second})
+			// half of the traffic is uncacheable, so it reaches the proxy step every time
+			res := cl.Do(hx.Req{Addr: srvAddr(L.ports["S0"]), Host: "hh.example", URI: fmt.Sprintf("/p0/traffic?size=300&n=%d&cc=%d", i%7, i%2), Timeout: 5 * time.Second})
 			trafficN.Add(1)
 			if res.Err != nil || res.Status != 200 {
 				if trafficBad.Add(1) == 1 {
 					firstBad.Store(fmt.Sprintf("request #%d: status %d err %v", i, res.Status, res.Err))
 				}
 			}
-			time.Sleep(2 * time.Millisecond)
+			time.Sleep(time.Millisecond)
 		}
 	}()
 	removed := map[string]bool{}
@@ -533,6 +549,17 @@ func c16Run(r *hx.Run, bin string, seq *c16Seq, rnd *rand.Rand) {
 				logical.Compresses = logical.Compresses[:len(logical.Compresses)-1]
 				seq.OverrodeBestAndBack = true
 				return "best_remove"
+			},
+		}
+	case "compress_level_set_then_unset":
+		script = []func() string{
+			func() string {
+				logical.Compresses[0].Levels = map[string]uint{"gzip": 9, "br": 1}
+				return "cmp_modify cmpA gzip:9 br:1"
+			},
+			func() string {
+				logical.Compresses[0].Levels = map[string]uint{"gzip": 9}
+				return "cmp_drop_level cmpA drops br"
 			},
 		}
 	case "server_cache_switch":
@@ -641,6 +668,15 @@ func c16Run(r *hx.Run, bin string, seq *c16Seq, rnd *rand.Rand) {
 		case "2kb":
 			minLen = 2000
 		}
+		// a fixed core: large text bodies, cacheable or not, with every Accept-Encoding, on every prefix
+		for pi := 0; pi < 4; pi++ {
+			for _, cc := range []string{"1", "0"} {
+				for _, ae := range []string{"", "gzip", "br"} {
+					n++
+					probes = append(probes, probeSpec{s.Addr, fmt.Sprintf("/p%d/core?size=5000&ct=text%%2Fhtml&cc=%s&n=%d", pi, cc, seq.ID*100000+n), ae})
+				}
+			}
+		}
 		for pi := 0; pi < 4; pi++ {
 			for _, size := range []int{minLen - 1, minLen + 1, 60, 5000} {
 				for _, ct := range []string{"text/html", "image/png", "application/custom"} {
@@ -717,7 +753,7 @@ func c16Run(r *hx.Run, bin string, seq *c16Seq, rnd *rand.Rand) {
 }
 
 func c16(r *hx.Run) {
-	r.Rule = "two real pike processes per sequence. The live one starts on a base configuration (2 caches, 2 upstreams, 2 locations, 2 servers, 1 compress profile) and receives 2-6 random valid updates (29 mutation kinds: set/unset min length, filter, compress profile, cache, location list; add/remove server, location, upstream, compress profile; set/unset rewrites, added headers, added query, upstream Accept-Encoding, upstream server list; override/remove bestCompression) through the admin PUT /config or a single in-place write of the file, each completion observed through the update.done hook, under continuous traffic on an unchanged server; the fresh one is started on the final configuration. A probe suite derived from the final configuration (servers x 4 prefixes x sizes around the effective threshold x 3 content types x cacheable or not x Accept-Encoding, each twice) is run against both and compared field by field (status, label, encoding, encoded and decoded bytes, headers, which origin saw which path/query/headers), plus cache binding between servers, the retained hit of a key cached before the updates, and (one sequence) that a removed server stops listening. Non-trivial/distinct = step sequence."
+	r.Rule = "two real pike processes per sequence. The live one starts on a base configuration (2 caches, 2 upstreams, 2 locations, 2 servers, 1 compress profile) and receives 2-6 random valid updates (30 mutation kinds: set/unset min length, filter, compress profile, cache, location list; add/remove server, location, upstream, compress profile; set/unset rewrites, added headers, added query, upstream Accept-Encoding, upstream server list; override/remove bestCompression) through the admin PUT /config or a single in-place write of the file, each completion observed through the update.done hook, under continuous traffic on an unchanged server; the fresh one is started on the final configuration. A probe suite derived from the final configuration (servers x 4 prefixes x sizes around the effective threshold x 3 content types x cacheable or not x Accept-Encoding, each twice) is run against both and compared field by field (status, label, encoding, encoded and decoded bytes, headers, which origin saw which path/query/headers), plus cache binding between servers, the retained hit of a key cached before the updates, and (one sequence) that a removed server stops listening. Non-trivial/distinct = step sequence."
 	r.Assume = []string{"restart-only settings (cache size/hit-for-pass/store, server log format, admin) are never changed", "gzip/brotli are deterministic, so equal levels give equal bytes", "addresses differ between the two processes and are not compared"}
 	bin, err := hx.BuildPike(r.Scratch)
 	if err != nil {
@@ -729,7 +765,7 @@ func c16(r *hx.Run) {
 	n := r.Pick(8, 150)
 	sem := make(chan struct{}, 8)
 	var wg sync.WaitGroup
-	for i := 0; i < n+4 && !r.TooMany(); i++ {
+	for i := 0; i < n+5 && !r.TooMany(); i++ {
 		seq := &c16Seq{ID: i, CheckRemovedListener: i%8 == 0}
 		if i == n {
 			seq.Directed = "best_override_then_remove"
@@ -742,6 +778,9 @@ func c16(r *hx.Run) {
 		}
 		if i == n+3 {
 			seq.Directed = "server_cache_renamed"
+		}
+		if i == n+4 {
+			seq.Directed = "compress_level_set_then_unset"
 		}
 		seed := rnd.Int63()
 		wg.Add(1)
